@@ -1819,7 +1819,12 @@ pub(crate) fn resolve_temp_id(id: &str) -> Option<usize> {
             if !x.is_uppercase() {
                 return None;
             }
-            return Some(id[2..].parse().ok()?);
+            //the remainder after the type letter (which may be multiple bytes) must consist of digits only
+            let number = iter.as_str();
+            if number.is_empty() || !number.bytes().all(|b| b.is_ascii_digit()) {
+                return None;
+            }
+            return Some(number.parse().ok()?);
         }
     }
     None
